@@ -66,3 +66,45 @@ def final_macros(path, defines=(), search=(), includes=(), cwd=None):
         if m:
             table[m.group(1)] = (m.group(2), (m.group(3) or "").strip())
     return rc == 0 and not err.strip(), table
+
+
+def eval_exprs(cases, workdir, name="exprs.c"):
+    """cases: list of (expr_text, {macro: body}); returns list of (truth|None, diagnostic|None).
+    One gcc run; every case is a block  #define.. / #if E / marker / #endif / #undef..  and a
+    diagnostic is attributed to the case by its line number."""
+    lines = []
+    owner = {}
+    for i, (expr, macros) in enumerate(cases):
+        start = len(lines) + 1
+        for k, v in (macros or {}).items():
+            lines.append(f"#define {k} {v}".rstrip())
+        lines.append(f"#if {expr}")
+        lines.append(f"cbi_m_e{i};")
+        lines.append("#endif")
+        for k in (macros or {}):
+            lines.append(f"#undef {k}")
+        for ln in range(start, len(lines) + 1):
+            owner[ln] = i
+    path = os.path.join(workdir, name)
+    with open(path, "w") as f:
+        f.write("\n".join(lines) + "\n")
+    rc, out, err = run(BASE + ["-P", "-fno-diagnostics-show-caret", path], cwd=workdir, timeout=300)
+    live = set(MARK.findall(out))
+    diag = {}
+    pat = re.compile(r"^" + re.escape(path) + r":(\d+):(?:\d+:)? (.*)$")
+    for ln in err.splitlines():
+        m = pat.match(ln)
+        if m:
+            i = owner.get(int(m.group(1)))
+            if i is not None:
+                diag.setdefault(i, m.group(2))
+        elif ln.strip() and not ln.startswith(" ") and "In file included" not in ln:
+            # unattributable diagnostic: poison everything (never happens with this layout)
+            diag.setdefault(-1, ln)
+    res = []
+    for i in range(len(cases)):
+        if i in diag or -1 in diag:
+            res.append((None, diag.get(i, diag.get(-1))))
+        else:
+            res.append((f"cbi_m_e{i}" in live, None))
+    return res
